@@ -158,7 +158,7 @@ Proof.
   - destruct (String.eqb (tid c0) (type_ident n)) eqn:E2.
     + exfalso. apply String.eqb_eq in E2. apply Hnotin.
       apply find_some in F as [Hin Hn]. apply String.eqb_eq in Hn.
-      apply in_map_iff. exists c. split; [|exact Hin]. unfold tid. now rewrite Hn, E2.
+      apply in_map_iff. exists c. split; [|exact Hin]. unfold tid in *. rewrite Hn. now symmetry.
     + exact (IH ND' F).
 Qed.
 
@@ -204,7 +204,7 @@ Section Shapes.
       + apply IH. intros Hs. pose proof (proj1 (forallb_forall _ _) (Hinl Hs) _ Hin) as Ic.
         cbn [custom_no_inline] in Ic. exact (proj1 (forallb_forall _ _) Ic f Hf).
     - cbn [shape_le]. cbn [custom_legal] in Lc. apply andb_prop in Lc as [_ Lv].
-      rewrite map_map. erewrite (map_ext_in (fun v => wire_variant snake_all (gen_variant v)) fst).
+      erewrite (map_ext_in (fun v => wire_variant snake_all (gen_variant v)) fst).
       + apply strs_eqb_refl.
       + intros v Hv. apply wire_gen_variant; [reflexivity|]. exact (proj1 (forallb_forall _ _) Lv v Hv).
   Qed.
@@ -219,8 +219,9 @@ Section Shapes.
     all: try (rewrite idl_shape_arr, rust_shape_vec; cbn [shape_le]; apply IHt; now apply inl_sub_arr).
     all: try (rewrite idl_shape_map, rust_shape_maps; cbn [shape_le]; apply IHt; now apply inl_sub_map).
     all: try (rewrite idl_shape_enum, rust_shape_leaf by exact Logic.I; cbn [shape_le]; now apply (inl_enum vs)).
-    all: try (destruct (idl_shape_obj _ env fs) as [l ->]; rewrite rust_shape_leaf by exact Logic.I;
-              cbn [shape_le]; now apply (inl_obj fs)).
+    all: try (match goal with |- context [idl_shape ?f env (TObject ?gs)] =>
+                destruct (idl_shape_obj f env gs) as [l ->] end;
+              rewrite rust_shape_leaf by exact Logic.I; cbn [shape_le]; now apply (inl_obj fs)).
     - reflexivity.
     - apply custom_case. exact IHk.
   Qed.
@@ -293,3 +294,47 @@ Fixpoint shape_defined (a : jshape) : bool :=
          match fs with [] => true | x :: r => shape_defined (snd x) && go r end) fs
   | _ => true
   end.
+
+Section JshapeInd.
+  Variable P : jshape -> Prop.
+  Hypothesis Hb : P JBool. Hypothesis Hi : P JInt. Hypothesis Hf : P JFloat. Hypothesis Hs : P JString.
+  Hypothesis Ha : P JAny. Hypothesis Hu : P JUnknown. Hypothesis Ho : P JOut.
+  Hypothesis Hn : forall x, P x -> P (JNullable x).
+  Hypothesis Hr : forall x, P x -> P (JArray x).
+  Hypothesis Hm : forall x, P x -> P (JMap x).
+  Hypothesis He : forall vs, P (JOneOf vs).
+  Hypothesis Hst : forall fs, Forall (fun x => P (snd x)) fs -> P (JStruct fs).
+  Fixpoint jshape_ind' (a : jshape) : P a :=
+    match a with
+    | JBool => Hb | JInt => Hi | JFloat => Hf | JString => Hs | JAny => Ha | JUnknown => Hu | JOut => Ho
+    | JNullable x => Hn x (jshape_ind' x)
+    | JArray x => Hr x (jshape_ind' x)
+    | JMap x => Hm x (jshape_ind' x)
+    | JOneOf vs => He vs
+    | JStruct fs =>
+        Hst fs ((fix go (fs : list (string * jshape)) : Forall (fun x => P (snd x)) fs :=
+                   match fs with
+                   | [] => Forall_nil _
+                   | x :: r => Forall_cons x (jshape_ind' (snd x)) (go r)
+                   end) fs)
+    end.
+End JshapeInd.
+
+Lemma strs_eqb_eq a b : strs_eqb a b = true -> a = b.
+Proof. apply list_eqb_sound. intros x y. apply String.eqb_eq. Qed.
+
+(* with strict = true the relation is equality (wherever the IDL shape is defined) *)
+Lemma shape_le_strict_eq : forall a b, shape_le true a b = true -> shape_defined a = true -> a = b.
+Proof.
+  induction a using jshape_ind'; intros b L D; destruct b; cbn [shape_le negb] in L; try discriminate;
+    try reflexivity; cbn [shape_defined] in D; try discriminate.
+  - f_equal. now apply IHa.
+  - f_equal. now apply IHa.
+  - f_equal. now apply IHa.
+  - f_equal. now apply strs_eqb_eq.
+  - f_equal. revert fs0 L D. induction H as [|x fs Hx _ IH]; intros [|y gs] L D; try discriminate; [reflexivity|].
+    apply andb_prop in L as [L L3]. apply andb_prop in L as [L1 L2]. apply andb_prop in D as [D1 D2].
+    apply String.eqb_eq in L1. f_equal.
+    + destruct x, y. cbn [fst snd] in *. subst. f_equal. now apply Hx.
+    + now apply IH.
+Qed.
